@@ -143,6 +143,8 @@ func init() {
 		c02xVarint(c)
 		c02xDuplicates(c)
 		c02xCoverage(c)
+		c02xShortSections(c)
+		c02xHistories(c)
 		nArch := 8 * c.Scale
 		for a := 0; a < nArch; a++ {
 			r := c.R.Fork()
@@ -876,4 +878,185 @@ func c02xDeclaredDigest(buf []byte) uint64 {
 		}
 	}
 	return 0
+}
+
+// ---- round 6: sections shorter than their CID; reader histories over the legacy reader -------------------
+
+// c02xRewriteLen replaces the length prefix of section i by l.  reframe = false: the rest of the file is
+// left as it is (the following bytes get framed differently); reframe = true: the section is cut to its
+// first l bytes and the following sections keep their framing.
+func c02xRewriteLen(payload []byte, lay layout, i int, l int, reframe bool) []byte {
+	g := append([]byte(nil), payload[:lay.secStart[i]]...)
+	g = append(g, byte(l)) // l < 128: one byte
+	if reframe {
+		g = append(g, payload[lay.cidStart[i]:lay.cidStart[i]+l]...)
+		return append(g, payload[lay.secEnd[i]:]...)
+	}
+	return append(g, payload[lay.cidStart[i]:]...)
+}
+
+// c02xShortSections: in a valid CARv1, each section's length prefix set to each value 0..40 -- a complete
+// section that is shorter than its own CID, stops where the digest should begin, or carries only part of
+// its data -- through every reader, Inspect(true) and every loader variant.  None of it is the end of the
+// archive: the error must be loud and nothing from that section on may be returned or stored.  (A length
+// of 0 is the documented clean end under ZeroLengthSectionAsEOF and, always, for the legacy root reader
+// and loader: only soundness applies there.)
+func c02xShortSections(c *Ctx) {
+	r := c.R.Fork()
+	data1 := r.Bytes(30 + r.Intn(20))
+	data2 := r.Bytes(3 + r.Intn(5))
+	blks := []Blk{
+		{mkCid(1, 0x55, 0x12, -1, data1), data1},
+		{mkCid(0, 0x70, 0x12, -1, data2), data2},
+		{mkCid(1, 0x71, 0x00, -1, data2), data2},
+		genBlock(r, genOpts{maxData: 30}),
+	}
+	for i := len(blks) - 1; i > 0; i-- {
+		j := r.Intn(i + 1)
+		blks[i], blks[j] = blks[j], blks[i]
+	}
+	roots := genRoots(r, blks, false)
+	payload := refPayload(roots, blks)
+	lay := payloadLayout(nil, payload, blks, len(refPayload(roots, nil)))
+	orig := blksVal(blks)
+	oz := defaultROpts
+	oz.zeof = true
+	for i := range blks {
+		full := blks[i].Cid.ByteLen() + len(blks[i].Data)
+		for l := 0; l <= 40; l++ {
+			for _, reframe := range []bool{false, true} {
+				if l == full || (reframe && l > full) {
+					continue
+				}
+				g := c02xRewriteLen(payload, lay, i, l, reframe)
+				loud := Val(VL{VT("corrupt"), orig, VN(uint64(i))})
+				none := Val(VL{VT("none")})
+				legacy, zeof := loud, loud
+				if l == 0 {
+					legacy, zeof = none, none
+				}
+				c02xScanCase(c, r, 0, defaultROpts, g, nil, loud, true)
+				c02xScanCase(c, r, 0, oz, g, nil, zeof, true)
+				c02xScanCase(c, r, 1, defaultROpts, g, nil, loud, true)
+				c02xScanCase(c, r, 1, oz, g, nil, zeof, true)
+				c02xScanCase(c, r, 2, defaultROpts, g, nil, legacy, true)
+				c02xEmitInspect(c, iOpts{false, defaultROpts.maxH, defaultROpts.maxS}, g, loud, true)
+				for _, fast := range []bool{false, true} {
+					c02xEmitLoad(c, r, 1, fast, -1, g, loud, true)
+					c02xEmitLoad(c, r, 2, fast, -1, g, legacy, true)
+				}
+				kind, chunk, dataErr := c02xSkipSrc(r, r.Bool())
+				c02xEmitSkip(c, kind, chunk, dataErr, defaultROpts, g, randChoices(r, len(blks)+2), none, true)
+				c.Count("input:short-section")
+			}
+		}
+	}
+}
+
+// c02xHistories: several legacy readers alive at once.  The caller owns bufio.Readers of 16 B, 4 KiB and
+// 64 KiB, hands one to NewCarReader, reads that archive to its end, Resets the same bufio.Reader onto the
+// next file and so on; readers over other (plain) sources are opened, advanced and drained in between.
+// The files are intact archives, archives cut inside a section / on a boundary, and corrupted ones.
+// Every reader must behave as if it were alone: in particular a cut archive never ends in a clean io.EOF.
+func c02xHistories(c *Ctx) {
+	r := c.R.Fork()
+	type fcase struct {
+		file   []byte
+		expect Val
+		nblk   int
+	}
+	var pool []fcase
+	for a := 0; a < 3; a++ {
+		blks := genBlocks(r, 1+r.Intn(3), genOpts{identity: true, maxData: 40})
+		roots := genRoots(r, blks, false)
+		payload := refPayload(roots, blks)
+		lay := payloadLayout(nil, payload, blks, len(refPayload(roots, nil)))
+		orig := blksVal(blks)
+		texp := func(k int) Val {
+			e := c02xSkipExpect(orig, lay, 0, k, len(payload)).(VL)
+			return VL{e[0], e[1], e[2]}
+		}
+		pool = append(pool, fcase{payload, texp(len(payload)), len(blks)})
+		for i := range blks {
+			// cut inside the data (or right after the CID), right after the length varint, on the boundary
+			for _, k := range []int{lay.secEnd[i] - 1, lay.cidStart[i], lay.cidStart[i] + 1, lay.secEnd[i], lay.dataStart[i]} {
+				if k > lay.hdrEnd && k <= len(payload) {
+					pool = append(pool, fcase{payload[:k], texp(k), len(blks)})
+				}
+			}
+			if lay.secEnd[i] > lay.digStart[i] {
+				g := append([]byte(nil), payload...)
+				g[lay.digStart[i]+r.Intn(lay.secEnd[i]-lay.digStart[i])] ^= pick(r, []byte{0x01, 0x80, 0xff})
+				pool = append(pool, fcase{g, VL{VT("corrupt"), orig, VN(uint64(i))}, len(blks)})
+			}
+		}
+	}
+	sizes := []int{16, 4096, 65536}
+	sizesVal := VL{VN(16), VN(4096), VN(65536)}
+	emit := func(ops VL, files [][]byte) {
+		hokSeen, hdrSeen := map[string]bool{}, map[string]bool{}
+		hok, hdrs := VL{}, VL{}
+		for _, f := range files {
+			h, d := scanTables(f)
+			for _, x := range h.(VL) {
+				if k := valString(x); !hokSeen[k] {
+					hokSeen[k] = true
+					hok = append(hok, x)
+				}
+			}
+			for _, x := range d.(VL) {
+				if k := valString(x); !hdrSeen[k] {
+					hdrSeen[k] = true
+					hdrs = append(hdrs, x)
+				}
+			}
+		}
+		in := VL{sizesVal, ops, hok, hdrs}
+		c.Emit("c02hist", in, c02xHistImpl(sizes, ops), true)
+		c.Count("input:reader-history")
+	}
+	nh := 150 * c.Scale
+	for h := 0; h < nh; h++ {
+		ops := VL{}
+		var files [][]byte
+		rid := uint64(0)
+		open := func(slot int) uint64 {
+			f := pick(r, pool)
+			rid++
+			ops = append(ops, VL{VT("open"), VN(rid), VN(uint64(slot)), VB(f.file), f.expect})
+			files = append(files, f.file)
+			return rid
+		}
+		drain := func(id uint64) { ops = append(ops, VL{VT("next"), VN(id), VN(100)}) }
+		var foreign []uint64
+		slot := 1 + r.Intn(3)
+		if h%3 == 0 {
+			slot = 2 + r.Intn(2) // the sizes at and above the bufio default more often
+		}
+		sessions := 2 + r.Intn(3)
+		for s := 0; s < sessions; s++ {
+			// a caller session on its bufio.Reader, with other readers opened / advanced around it
+			id := open(slot)
+			if r.Chance(40) {
+				foreign = append(foreign, open(0))
+			}
+			if r.Chance(30) {
+				ops = append(ops, VL{VT("next"), VN(id), VN(uint64(1 + r.Intn(2)))})
+			}
+			drain(id)
+			if r.Chance(60) {
+				foreign = append(foreign, open(0))
+			}
+			if len(foreign) > 0 && r.Chance(40) {
+				ops = append(ops, VL{VT("next"), VN(pick(r, foreign)), VN(uint64(1 + r.Intn(2)))})
+			}
+			if r.Chance(25) {
+				slot = 1 + r.Intn(3)
+			}
+		}
+		for _, id := range foreign {
+			drain(id)
+		}
+		emit(ops, files)
+	}
 }
